@@ -13,7 +13,7 @@ from simtz import core
 from simtz.runner import rng_for
 
 ID = 'C26'
-QUICK_RUNS = 40000
+QUICK_RUNS = 15000
 QUICK_BUDGET_S = 60
 CHUNK = 250
 RULE = (
@@ -42,14 +42,15 @@ ASSUMPTIONS = [
     'Exact back-off values are not asserted, only: non-decreasing, each <= 2.0 s, clock advances only through sleep.',
     'A transport exception is not a "transient server error": it must propagate without a resend.',
 ]
-EXPECTED_PROBES = ['sixth_attempt_transient', 'retried_then_ok', 'retried_then_error', 'exception_midway', 'four_xx_temporary_not_retried']
+EXPECTED_PROBES = ['many_transients_on_one_client', 'sixth_attempt_transient', 'retried_then_ok', 'retried_then_error', 'exception_midway', 'four_xx_temporary_not_retried']
 
-TRANSIENT = ('t_json', 'preval_text', 't_json2')
+TRANSIENT = ('t_json', 'preval_text', 't_json2', 'preval_json')
 CLASSES = [
     'ok',
     't_json',
     't_json2',
     'preval_text',
+    'preval_json',
     'perm_json',
     'branch_json',
     'proto_temp',
@@ -79,6 +80,17 @@ PATHS = [
     ('shell.pending', None, None),
     ('shell.inject', None, None),
     ('multi.get', 'chains/main/blocks/head/hash', None),
+    # less common public entry points: every one of them must go through the same retry contract
+    ('shell.monitor', None, None),
+    ('shell.mempool_post', None, None),
+    ('shell.block_inject', None, None),
+    ('shell.invalid_block_delete', None, None),
+    ('shell.network_points', None, None),
+    ('shell.conn_delete', None, None),
+    ('shell.raw_bytes', None, None),
+    ('shell.run_operation', None, None),
+    ('shell.big_map_value', None, None),
+    ('multi.shell.header', None, None),
 ]
 
 
@@ -94,6 +106,10 @@ def gen_response(rng, cls, tok):
         return {'cls': cls, 'status': st5, 'ctype': 'application/json', 'body': json.dumps(errs)}
     if cls == 'preval_text':
         return {'cls': cls, 'status': st5, 'ctype': rng.choice(['text/plain', None, 'text/html']), 'body': f'Assert_failure src/lib_shell/prevalidator.ml:1918:6 {tok}'}
+    if cls == 'preval_json':
+        # a prevalidator failure wrapped in the node's JSON error envelope (not marked temporary, not a protocol error)
+        errs = [{'kind': rng.choice(['permanent', 'branch']), 'id': 'failure', 'msg': f'Assert_failure src/lib_shell/prevalidator.ml:1918:6 {tok}', 'tok': tok}]
+        return {'cls': cls, 'status': st5, 'ctype': 'application/json', 'body': json.dumps(errs)}
     if cls == 'perm_json':
         return {'cls': cls, 'status': st5, 'ctype': 'application/json', 'body': json.dumps([{'kind': 'permanent', 'id': 'node.validator.invalid', 'tok': tok}])}
     if cls == 'branch_json':
@@ -130,7 +146,7 @@ def gen(seed, tier):
     enabled = [c for c in CLASSES if rng.random() < 0.7] or ['ok']
     if not any(c in TRANSIENT for c in enabled) and rng.random() < 0.8:
         enabled.append(rng.choice(TRANSIENT))
-    nreq = rng.choice([1, 1, 2, 3, 5])
+    nreq = rng.choice([1, 2, 3, 5, 8])
     steps = []
     tokn = 0
     for r in range(nreq):
@@ -154,6 +170,8 @@ def gen(seed, tier):
         step = {'via': via, 'path': path, 'params': params, 'script': script}
         if via == 'node.post':
             step['json'] = rng.choice([None, 'deadbeef', {'a': [1, 2]}])
+        if rng.random() < 0.15:
+            step['fresh_client'] = True
         if rng.random() < 0.3 and via.startswith('node.') and via != 'node.request':
             step['timeout'] = rng.choice([1, 30, 120])
         steps.append(step)
@@ -216,13 +234,19 @@ def execute(scn, want_log=False):
         violations.append({'kind': kind, 'sig': f'C26/{sig}', 'detail': detail})
 
     with core.Seams(sim, tr):
+        # one client object for the whole scenario: retry state must not leak from one request to the next
+        shared_node = RpcNode(uri)
+        shared_multi = RpcMultiNode([uri])
         for si, step in enumerate(scn['steps']):
             script = step['script']
             cursor['script'] = script
             cursor['pos'] = 0
             cursor.pop('overrun', None)
             first_log = len(sim.log)
-            node = RpcMultiNode([uri]) if step['via'].startswith('multi.') else RpcNode(uri)
+            if step.get('fresh_client'):
+                node = RpcMultiNode([uri]) if step['via'].startswith('multi.') else RpcNode(uri)
+            else:
+                node = shared_multi if step['via'].startswith('multi.') else shared_node
             via = step['via']
             kwargs = {}
             if 'timeout' in step:
@@ -246,6 +270,26 @@ def execute(scn, want_log=False):
                     result = ShellQuery(node).mempool.pending_operations()
                 elif via == 'shell.inject':
                     result = ShellQuery(node).injection.operation.post(operation=b'\x01\x02', _async=True)
+                elif via == 'shell.monitor':
+                    result = next(iter(ShellQuery(node).monitor.heads.main()), None)
+                elif via == 'shell.mempool_post':
+                    result = ShellQuery(node).mempool.post({'minimal_fees': '100'})
+                elif via == 'shell.block_inject':
+                    result = ShellQuery(node).injection.block.post({'data': '00', 'operations': []}, force=True)
+                elif via == 'shell.invalid_block_delete':
+                    result = ShellQuery(node).chains.main.invalid_blocks['BLockGenesisGenesisGenesisGenesisGenesisf79b5d1CoW2'].delete()
+                elif via == 'shell.network_points':
+                    result = ShellQuery(node).network.points(_filter='running')
+                elif via == 'shell.conn_delete':
+                    result = ShellQuery(node).network.connections['idabc'].delete(wait=True)
+                elif via == 'shell.raw_bytes':
+                    result = ShellQuery(node).head.context.raw.bytes(depth=2)
+                elif via == 'shell.run_operation':
+                    result = ShellQuery(node).head.helpers.scripts.run_operation.post({'operation': {}, 'chain_id': 'x'})
+                elif via == 'shell.big_map_value':
+                    result = ShellQuery(node).blocks['head'].context.big_maps[17]['exprabc']()
+                elif via == 'multi.shell.header':
+                    result = ShellQuery(node).head.header()
                 else:
                     raise core.HarnessError(via)
             except RpcError as e:
@@ -285,7 +329,7 @@ def execute(scn, want_log=False):
                             classes=[r.get('cls') for r in script[: max(len(reqs), want_n)]])
                 continue
             # identical attempts
-            sigs = {(r['m'], r['host'], r['path'], r['q'], json.dumps(r['body'])) for r in reqs}
+            sigs = {(r['m'], r['host'], r['path'], r['q'], json.dumps(r['body']), json.dumps(r.get('to')), json.dumps(r.get('h'))) for r in reqs}
             if len(sigs) != 1:
                 violate('resend-differs', 'resend-differs', step=si, attempts=[(r['m'], r['path'], r['q']) for r in reqs])
                 continue
@@ -329,6 +373,8 @@ def execute(scn, want_log=False):
             if tok and tok not in text:
                 violate('outcome', f'wrong-error-raised:{decider["cls"]}', step=si, got=text[:300], expected_tok=tok)
 
+    if sum(1 for e in sim.log if e['k'] == 'req' and e.get('status', 0) >= 500) >= 8:
+        bump('many_transients_on_one_client')
     out = {
         'violations': violations,
         'judged': judged,
